@@ -51,11 +51,14 @@ def impl_larch(ops) -> str:
         if op[0] == "layer" and op[1] not in names:
             names.append(op[1])
     listing = []
-    for n in names:
-        fs = a[n]
-        listing.append(enc(n) + "~" + ",".join(("R:" if f.identifier_is_regex else "N:") + enc(f.identifier) for f in fs))
-    s = str(a)
-    want = "Layered Architecture: " + "; ".join(f"Layer {n}: [{', '.join(f.identifier for f in a[n])}]" for n in names)
+    try:
+        for n in names:
+            fs = a[n]
+            listing.append(enc(n) + "~" + ",".join(("R:" if f.identifier_is_regex else "N:") + enc(f.identifier) for f in fs))
+        s = str(a)
+        want = "Layered Architecture: " + "; ".join(f"Layer {n}: [{', '.join(f.identifier for f in a[n])}]" for n in names)
+    except Exception as e:  # noqa: BLE001  (the object the history ends with does not list its layers)
+        return f"OK:UNLISTABLE:{type(a).__name__}:{type(e).__name__} I={len(ops)}"
     return "OK:" + ";".join(listing) + f" I={len(ops)}" + ("" if s == want else " STR-MISMATCH:" + enc(s))
 
 
